@@ -1,9 +1,93 @@
 import RustbusModel.Model.Proto
+import RustbusModel.Model.Auth
 namespace Driver.C17
-open Rustbus Rustbus.Proto
+open Rustbus Rustbus.Proto Rustbus.Auth
 
-/-- line protocol handler for the ops `c17.*` (tokens of one request line → one response line) -/
+def showCps (s : List Char) : String :=
+  if s.isEmpty then "-" else ",".intercalate (s.map (fun c => toString c.toNat))
+
+def showAddr : AddrResult → String
+  | .path p => "path " ++ showCps p
+  | .abstract a => "abstract " ++ showCps a
+  | .errNoAddress => "err:noaddr"
+  | .errNotSupported => "err:unsupported"
+  | .errPathMissing p => "err:missing " ++ showCps p
+  | .errIo => "err:io"
+
+/-- `-` or `;`-separated code point lists: the values for which `Path::exists` holds -/
+def parseExists (s : String) : Option (List (List Char)) :=
+  if s == "-" then some [] else (s.splitOn ";").mapM parseCodepoints
+
+def parseEv (s : String) : Option Ev :=
+  if s == "e" then some .eof
+  else if s == "x" then some .err
+  else if s.startsWith "c" then (parseHex (s.drop 1).toString).map Ev.chunk
+  else none
+
+def parseScript (s : String) : Option (List Ev) :=
+  if s == "-" then some [] else (s.splitOn ",").mapM parseEv
+
+/-- indices of the write attempts that fail -/
+def parseWok (s : String) : Option (Nat → Bool) :=
+  (parseNats s).map (fun l k => !(l.contains k))
+
+def showFail : Fail → String
+  | .eof => "io:eof"
+  | .invalidData => "io:invalid"
+  | .ioOther => "io:other"
+  | .panic => "panic"
+
+def showConn : ConnResult → String
+  | .ok => "ok"
+  | .authFailed => "authfailed"
+  | .fdFailed => "fdfailed"
+  | .fail f => showFail f
+
+def showStep : StepRes → String
+  | .ok => "ok"
+  | .rejected => "rejected"
+  | .fail f => showFail f
+
+def showTrace (st : St) : String := toHex st.written.flatten
+
 def handle : List String → String
+  | ["c17.addr", env, ex] =>
+    let envv := if env == "~" then some none else (parseCodepoints env).map some
+    match envv, parseExists ex with
+    | some e, some l => showAddr (sessionBusPath (fun p => l.contains p) e)
+    | _, _ => "bad-op"
+  | ["c17.sys", ex] => showAddr (systemBusPath (fun _ => ex == "1"))
+  | ["c17.uid", uid] =>
+    match uid.toNat? with
+    | some u =>
+      match getUidAsHex u with
+      | some h => "auth=" ++ toHex (authLine h)
+      | none => "panic"
+    | none => "bad-op"
+  | ["c17.conn", uid, fd, wf, script] =>
+    match uid.toNat?, parseWok wf, parseScript script with
+    | some u, some wok, some s =>
+      let (st, r) := connect wok u (fd == "1") s
+      s!"res={showConn r} trace={showTrace st}"
+    | _, _, _ => "bad-op"
+  | ["c17.auth", uid, wf, script] =>
+    match uid.toNat?, parseWok wf, parseScript script with
+    | some u, some wok, some s =>
+      let (st, r) := doAuth wok u { script := s }
+      s!"res={showStep r} trace={showTrace st}"
+    | _, _, _ => "bad-op"
+  | ["c17.neg", wf, script] =>
+    match parseWok wf, parseScript script with
+    | some wok, some s =>
+      let (st, r) := negotiateUnixFds wok { script := s }
+      s!"res={showStep r} trace={showTrace st}"
+    | _, _ => "bad-op"
+  | ["c17.begin", wf] =>
+    match parseWok wf with
+    | some wok =>
+      let (st, r) := sendBegin wok { script := [] }
+      s!"res={showStep r} trace={showTrace st}"
+    | none => "bad-op"
   | _ => "bad-op"
 
 end Driver.C17
